@@ -676,12 +676,13 @@ class BADS:
             optim_state["search_mesh_size"],
         )
 
-        # Adjust points that fall outside bounds due to gridization
-        u0[u0 < self.lower_bounds] = (
-            u0[u0 < self.lower_bounds] + optim_state["search_mesh_size"]
+        # Adjust points that fall on or outside bounds due to gridization
+        # (a random start next to a hard bound can be rounded onto it)
+        u0[u0 <= self.lower_bounds] = (
+            u0[u0 <= self.lower_bounds] + optim_state["search_mesh_size"]
         )
-        u0[u0 > self.upper_bounds] = (
-            u0[u0 > self.upper_bounds] - optim_state["search_mesh_size"]
+        u0[u0 >= self.upper_bounds] = (
+            u0[u0 >= self.upper_bounds] - optim_state["search_mesh_size"]
         )
         
         # Check that the gridized points satisfies the non-bound constraints
